@@ -204,7 +204,7 @@ def c082(ctx):
     f = ctx.fn(R, TREE + "explicit_unref")
     if f:
         for pt in ctx.calls(R, f, REN):
-            g1 = K.guarded_by_call(f, pt, r"reference_counter::ReferenceCounter::dec$", label="otherwise", recv_field="references")
+            g1 = K.guarded_by_call(f, pt, r"reference_counter::ReferenceCounter::dec$", label="sw:1", recv_field="references")
             ctx.check(R, f, "dec-guard", g1 is not None, "the rename is taken only on the true edge of references.dec(setsum)",
                       "an sst is moved to trash without its reference count having reached zero", pt=pt)
             g2 = [g for g in K.compare_guards(f, pt) if "strong_count()" in (K.src_names(f, g["a"]) | K.src_names(f, g["b"]))
